@@ -8,7 +8,7 @@ rsync -a --exclude .git --exclude 'fc/fc' /repo/ $S/repo/
 cp /verif/known_findings.txt $S/verif/ 2>/dev/null
 case "$P" in
   -R:*) (cd /repo && git show "${P#-R:}") | (cd $S/repo && patch -R -p1 -s) || { echo "revert failed"; rm -rf $S; exit 2; } ;;
-  *) (cd $S/repo && patch -p1 -s < "$P") || { echo "patch failed"; rm -rf $S; exit 2; } ;;
+  *) P=$(readlink -f "$P"); (cd $S/repo && patch -p1 -s < "$P") || { echo "patch failed"; rm -rf $S; exit 2; } ;;
 esac
 rc=0
 for p in "$@"; do
